@@ -137,16 +137,31 @@ Verdict run_case(Choices& c, CaseLog& log)
     opt.max_primaries = 3;
     opt.max_primary_energy = 10;
     int nstreams = 2;
+    bool many_slots = false;
     Problem serial;
     Verdict v = setup_problem(c, log, opt, serial, {}, {}, [&](SimSpec& s) {
         s.max_events = 8;
-        s.track_slots = std::min(s.track_slots, 16);
+        // many-slots class (round-3 seeded change C07/c: per-event reseeding
+        // that skips trailing slots only when the slot count is >= 128 and
+        // not a multiple of the block count).  Derived from the existing
+        // draws: the upper quarter of the drawn range becomes 129..982 with
+        // varying residues; everything else keeps the <= 16 cap.
+        if (s.track_slots >= 48)
+        {
+            s.track_slots = 129 + (s.track_slots - 48) * 53
+                            + int(s.rng_seed % 5);
+            many_slots = true;
+        }
+        else
+            s.track_slots = std::min(s.track_slots, 16);
         if (s.track_order == TrackOrder::init_charge)
             s.track_order = TrackOrder::none;
     });
     if (v != Verdict::pass)
         return v;
     size_t nev = serial.spec.events.size();
+    if (many_slots)
+        log.label("many-slots(>=128)");
     nstreams = int(c.int_in(2, 8));
     std::vector<int> assign(nev);
     std::vector<int> skew(nstreams);
